@@ -127,6 +127,13 @@ def run_check(P, pid, tier, seed, t0, a):
         raise MachineryError(f"non-standard axioms: {bad}")
     t_lean = time.time() - t1
     log(f"[{pid}] P: {len(thms)} theorems, axioms ok ({t_lean:.1f}s)")
+    if tier == "thorough":
+        # independent re-check of the compiled property module by the toolchain's leanchecker
+        rc, out = core.run(["lake", "env", "leanchecker", f"Cgm.Props.{pid}"], cwd=core.LEAN, timeout=3000)
+        if rc != 0:
+            raise MachineryError(f"leanchecker rejected Cgm.Props.{pid}:\n{out[-3000:]}")
+        notes.append(f"leanchecker re-checked Cgm.Props.{pid}")
+        log(f"[{pid}] P: leanchecker accepted Cgm.Props.{pid}")
 
     # ---------------------------------------------------------------- build harness from /repo
     rc, out, full, t_cargo = core.build_harness()
@@ -159,6 +166,13 @@ def run_check(P, pid, tier, seed, t0, a):
         nrand = P.n_random(tier) if core.SIG.get(op) else 1
         for _ in range(nrand):
             cases.append(core.gen_random(r2, op))
+    # special values: exact 0 / 1 / -1, structured matrices (affine, unimodular, diagonal), parallel and
+    # antiparallel vector pairs, boundary scalars -- the inputs on which fast paths and guards differ
+    r3 = rng.fork("special")
+    for op in P.ops:
+        if core.SIG.get(op):
+            for _ in range(6 if tier == "quick" else 80):
+                cases.append(core.gen_special(r3, op))
     seeds = (1, 0x5eed5eed) if tier == "quick" else (1, 0x5eed5eed, seed * 7919 + 13)
     dres = core.differential(cases, seeds=seeds)
     dres.branches = core.branch_histogram(cases)
@@ -167,6 +181,9 @@ def run_check(P, pid, tier, seed, t0, a):
 
     # ---------------------------------------------------------------- O
     ocases = P.oracle_cases(rng.fork("oracle"), tier)
+    # clones with special values, only for the clauses that are stated for *all* inputs (P.sparsify)
+    sp_ops = set(getattr(P, "sparsify", []))
+    ocases = ocases + core.sparsified([c for c in ocases if c.op in sp_ops], rng.fork("sparsify"), 2 if tier == "quick" else 6)
     ores = core.run_oracles(ocases, seeds=seeds[:1]) if ocases else \
         {"fails": [], "total": 0, "skipped": 0, "per_op": {}, "samples": []}
     log(f"[{pid}] O: {ores['total']} clause evaluations, {ores['skipped']} skipped, "
@@ -176,13 +193,25 @@ def run_check(P, pid, tier, seed, t0, a):
 
     # ---------------------------------------------------------------- native f32/f64 checks
     nres = None
-    if hasattr(P, "native_args"):
+    if hasattr(P, "native_args") or hasattr(P, "native_runs"):
         nres = run_native(P, pid, tier, seed, known)
         log(f"[{pid}] N: {nres['evaluations']} native evaluations, {nres['mq']} model queries "
             f"({len(nres['mq_disagree'])} disagreements), {len(nres['fails'])} failing checks, "
             f"{len(nres['known'])} known findings")
         for kf in nres["known"]:
             print(f"KNOWN-FINDING: property={pid} {kf}")
+
+    # ---------------------------------------------------------------- thorough: the same native run under Miri
+    if nres is not None and tier == "thorough" and getattr(P, "miri", False):
+        mres = run_miri(P, seed)
+        log(f"[{pid}] N(miri): {mres['evaluations']} evaluations under the interpreter (Tree Borrows), "
+            f"undefined behaviour reported: {mres['ub'] is not None}")
+        nres["evaluations"] += mres["evaluations"]
+        nres["info"].append(f"miri(tree-borrows) evaluations={mres['evaluations']} ub={'yes' if mres['ub'] else 'no'}")
+        for f in mres["fails"]:
+            nres["fails"].append(f)
+        if mres["ub"]:
+            nres["fails"].append(("miri.undefined_behaviour", mres["ub"]))
 
     def is_known(case):
         for e in known:
@@ -257,6 +286,7 @@ def run_check(P, pid, tier, seed, t0, a):
     if broken_corr and not violations:
         # search for a concrete failing input: larger oracle batch
         big = P.oracle_cases(rng.fork("search"), "thorough")
+        big = big + core.sparsified([c for c in big if c.op in sp_ops], rng.fork("search-sparsify"), 3)
         sres = core.run_oracles(big, seeds=seeds[:1]) if big else {"fails": []}
         found = None
         for (c, out_, sd) in sres["fails"]:
@@ -285,11 +315,48 @@ def run_check(P, pid, tier, seed, t0, a):
     return 1 if violations else 0
 
 
+def run_miri(P, seed):
+    """cargo +nightly miri run (Tree Borrows) of the property's native check; the harness skips, under cfg!(miri),
+    what is documented in DESIGN 0.5"""
+    env = dict(os.environ, MIRIFLAGS="-Zmiri-disable-isolation -Zmiri-tree-borrows", CARGO_NET_OFFLINE="true")
+    with core.Lock("cargo"):
+        p = core.subprocess.run(["cargo", "+nightly", "miri", "run", "--offline", "--"] + P.native_args("quick", seed),
+                                cwd=f"{core.VERIF}/harness", stdout=core.subprocess.PIPE, stderr=core.subprocess.PIPE,
+                                text=True, timeout=3000, env=env)
+    res = {"evaluations": 0, "fails": [], "ub": None}
+    for line in p.stdout.split("\n"):
+        t = line.split(" ")
+        if t[0] == "native" and len(t) >= 4 and t[2].startswith("n="):
+            res["evaluations"] += int(t[2][2:])
+            if int(t[3][6:]):
+                res["fails"].append(("miri:" + t[1], line))
+    if "Undefined Behavior" in p.stderr:
+        i = p.stderr.index("Undefined Behavior")
+        res["ub"] = p.stderr[max(0, i - 200):i + 1500]
+    elif p.returncode != 0:
+        raise MachineryError(f"miri run failed: {p.stderr[-2000:]}")
+    return res
+
+
 def run_native(P, pid, tier, seed, known):
-    p = core.subprocess.run([core.BIN_IMPL] + P.native_args(tier, seed), stdout=core.subprocess.PIPE,
-                            stderr=core.subprocess.PIPE, text=True, timeout=3000)
-    if p.returncode != 0:
-        raise MachineryError(f"native check failed to run: {p.stderr[-2000:]}")
+    runs = P.native_runs(tier, seed) if hasattr(P, "native_runs") else [P.native_args(tier, seed)]
+    stdout = ""
+    crashed = []
+    for args in runs:
+        p = core.subprocess.run([core.BIN_IMPL] + args, stdout=core.subprocess.PIPE,
+                                stderr=core.subprocess.PIPE, text=True, timeout=3000)
+        stdout += p.stdout
+        if p.returncode != 0:
+            if "panicked at" in p.stderr and "/repo/" in p.stderr:
+                # the implementation itself panicked where no panic is specified: that is a finding, not a tool failure
+                crashed.append((" ".join(args), p.stderr[-1500:]))
+            else:
+                raise MachineryError(f"native check failed to run: {p.stderr[-2000:]}")
+
+    class _P:
+        pass
+    p = _P()
+    p.stdout = stdout
     res = {"evaluations": 0, "fails": [], "known": [], "checks": {}, "exhaustive": None, "mq": 0, "mq_disagree": [],
            "mq_samples": [], "info": []}
     mqs = []
@@ -317,6 +384,8 @@ def run_native(P, pid, tier, seed, known):
                     res["known"].append(knames[t[1]].get("what", line))
                 else:
                     res["fails"].append((t[1], line))
+    for (a, err) in crashed:
+        res["fails"].append(("native.unexpected_panic", f"`cgverif {a}` panicked inside cgmath: {err}"))
     if mqs:
         out = core.run_ops(core.BIN_MODEL, [], "".join(q + "\n" for q, _ in mqs))
         if len(out) != len(mqs):
